@@ -310,4 +310,77 @@ def mul (thr : Nat) (retain : Bool) (plus : Nat) (s : St) (w u v : Nat) : St :=
 
 def mpz_mul (s : St) (w u v : Nat) : St := mul 17 true 1 s w u v
 
+/-! ### mpz_tdiv_q, mpz_tdiv_r — mpz/tdiv_q.c, mpz/tdiv_r.c
+    (the pointer plumbing of the whole division family is also mirrored, at pointer level, by Mpir/Model/AliasMem.lean, part c05_ptr;
+    here: the sizes requested from MPZ_REALLOC against the limbs mpn_tdiv_q / mpn_tdiv_qr write) -/
+
+/-- mpn_tdiv_q (qp, np, nl, dp, dl), nl ≥ dl ≥ 1: the contract (C02 `tdiv_q_contract`): reads np[0,nl), dp[0,dl); writes exactly
+    the `nl - dl + 1` limbs of the quotient to qp -/
+def mpn_tdiv_q_S (s : St) (qp : Ptr) (np : Src) (nl : Nat) (dp : Src) (dl : Nat) : St :=
+  let q := toLimbs (nl - dl + 1) (val (s.rdS np nl) / val (s.rdS dp dl))
+  (s.chk (s.rdOkS np nl && s.rdOkS dp dl)).wr qp q
+
+/-- `qp = TMP_ALLOC (ql limbs); mpn_tdiv_qr (qp, rp, 0, np, nl, dp, dl)` (tdiv_r.c:63, 87): the contract (C02 `tdiv_qr_contract`):
+    writes exactly `nl - dl + 1` quotient limbs (here into the temporary block of `ql` limbs) and `dl` remainder limbs to rp -/
+def mpn_tdiv_qr_tmpq (s : St) (ql : Nat) (rp : Ptr) (np : Src) (nl : Nat) (dp : Src) (dl : Nat) : St :=
+  let q := toLimbs (nl - dl + 1) (val (s.rdS np nl) / val (s.rdS dp dl))
+  let r := toLimbs dl (val (s.rdS np nl) % val (s.rdS dp dl))
+  let qb := (Buf.new ql).write 0 q
+  (s.chk (s.rdOkS np nl && s.rdOkS dp dl && qb.2)).wr rp r
+
+/-- `if (p == outp) { tp = TMP_ALLOC (n limbs); MPN_COPY (tp, p, n); p = tp; }` (tdiv_q.c:64-78, tdiv_r.c:70-84):
+    the operand afterwards and the state (the copy is a checked read) -/
+def copyIfSame (same : Bool) (s : St) (p : Ptr) (n : Nat) : Src × St :=
+  if same then (Src.tmp (tmp_copy s p n).1 0, (tmp_copy s p n).2) else (Src.ptr p, s)
+
+/-- mpz_tdiv_q (quot, num, den), tdiv_q.c:30-87; `none` = DIVIDE_BY_ZERO.  `ra ql` = the size requested from MPZ_REALLOC
+    (`ql` in the C). -/
+def tdiv_q (ra : Nat → Nat) (s : St) (quot num den : Nat) : Option St :=
+  let ns := s.SIZ num                                                         -- tdiv_q.c:37
+  let ds := s.SIZ den                                                         -- :38
+  let nl := ns.natAbs                                                         -- :39
+  let dl := ds.natAbs                                                         -- :40
+  if dl == 0 then none                                                        -- :43-44
+  else if nl + 1 ≤ dl then some (s.setSize quot 0)                            -- :41, 46-50 ql <= 0
+  else
+    let ql := nl - dl + 1                                                     -- :41
+    let s := MPZ_REALLOC s quot (ra ql)                                       -- :52
+    let qp := s.PTR quot                                                      -- :55
+    let np := s.PTR num                                                       -- :56
+    let dp := s.PTR den                                                       -- :57
+    let cd := copyIfSame (den == quot) s dp dl                                -- :64-70 dp == qp
+    let cn := copyIfSame (num == quot) cd.2 np nl                             -- :72-78 np == qp
+    let s := mpn_tdiv_q_S cn.2 qp cn.1 nl cd.1 dl                             -- :81
+    let (top, s) := s.load qp (ql - 1)                                        -- :83
+    some (s.setSize quot (sgn (Mpz.diffSign ns ds) (ql - (if top == 0 then 1 else 0))))   -- :83, 85
+
+def mpz_tdiv_q (s : St) (quot num den : Nat) : Option St := tdiv_q id s quot num den
+
+/-- mpz_tdiv_r (rem, num, den), tdiv_r.c:30-93; `ra dl` = the size requested from MPZ_REALLOC (`dl` in the C) -/
+def tdiv_r (ra : Nat → Nat) (s : St) (rem num den : Nat) : Option St :=
+  let ns := s.SIZ num                                                         -- tdiv_r.c:37
+  let ds := s.SIZ den                                                         -- :38
+  let nl := ns.natAbs                                                         -- :39
+  let dl := ds.natAbs                                                         -- :40
+  if dl == 0 then none                                                        -- :43-44
+  else
+    let s := MPZ_REALLOC s rem (ra dl)                                        -- :46
+    if nl + 1 ≤ dl then                                                       -- :48 ql <= 0
+      if num != rem then                                                      -- :50
+        let s := MPN_COPY s (s.PTR rem) (s.PTR num) nl                        -- :53-55
+        some (s.setSize rem ns)                                               -- :56
+      else some s
+    else
+      let ql := nl - dl + 1                                                   -- :41
+      let rp := s.PTR rem                                                     -- :64
+      let np := s.PTR num                                                     -- :65
+      let dp := s.PTR den                                                     -- :66
+      let cd := copyIfSame (den == rem) s dp dl                               -- :73-79 dp == rp
+      let cn := copyIfSame (num == rem) cd.2 np nl                            -- :81-87 np == rp
+      let s := mpn_tdiv_qr_tmpq cn.2 ql rp cn.1 nl cd.1 dl                    -- :63, 89
+      let (dl', s) := MPN_NORMALIZE s rp dl                                   -- :91
+      some (s.setSize rem (sgn (ns < 0) dl'))                                 -- :93
+
+def mpz_tdiv_r (s : St) (rem num den : Nat) : Option St := tdiv_r id s rem num den
+
 end Mpir.AllocSafe
